@@ -198,8 +198,9 @@ func runScriptedServer(ctx context.Context, conn *bufpipe.Conn, sc srvScript, lg
 			if o.PutInt64(ctx, r) != nil || o.FinishMessage(ctx) != nil {
 				return
 			}
-			if r == bitClaimToBe {
-				// CLAIMTOBE, server side: [status, user] -> [ack]
+			if r > 0 && r&bitClaimToBe != 0 {
+				// CLAIMTOBE, server side: [status, user] -> [ack]. A deviating server that answers
+				// with several bits is ready to play CLAIMTOBE if the client (wrongly) starts it.
 				cm := message.NewMessageFromStream(st)
 				status, err := cm.GetInt(ctx)
 				if err != nil {
@@ -637,7 +638,7 @@ func sp(s string) *string { return &s }
 func ip(v int64) *int64   { return &v }
 
 func runHsAdv(c *Ctx) error {
-	c.Res.Rule = "both roles; every 4x4 local (authentication, encryption) policy plus integrity; method lists over {CLAIMTOBE, PASSWORD, NONE, BOGUS, TOKEN}; peers = the property's deviation catalogue (honest; Authentication/Encryption NO; ECDH key absent/undecodable; no common cipher; un-offered / multi-bit / zero / negative method bit; DENIED; clear post-auth ad on a keyed stream; sealed post-auth without agreement; missing or non-zero key message) crossed with each policy, plus random peers drawing every field independently; the scripted peer speaks raw CEDAR frames and records which exchanges completed; distinct by (config, script); non-trivial = peer deviates from honest in ≥1 field"
+	c.Res.Rule = "both roles; every 4x4 local (authentication, encryption) policy plus integrity; method lists over {CLAIMTOBE, PASSWORD, NONE, BOGUS, TOKEN}; peers = the property's deviation catalogue (honest; Authentication/Encryption NO; ECDH key absent/undecodable; no common cipher; un-offered / multi-bit (also with an un-offered lowest bit) / zero / negative method bit; DENIED; clear post-auth ad on a keyed stream; sealed post-auth without agreement; missing or non-zero key message) crossed with each policy, plus random peers drawing every field independently; the scripted peer speaks raw CEDAR frames and records which exchanges completed; distinct by (config, script); non-trivial = peer deviates from honest in ≥1 field"
 	var cases []Case
 	honestSrv := func(cfg clientCfg) srvScript {
 		return srvScript{auth: "YES", enc: "YES", methods: []string{"CLAIMTOBE"}, ciphers: []string{"AES"}, key: "good",
@@ -693,6 +694,26 @@ func runHsAdv(c *Ctx) error {
 						c.Distinct(cs.Ops[0], d.name != "honest")
 						c.Count("client-dev:" + d.name)
 					}
+				}
+			}
+		}
+	}
+	// a multi-bit answer whose LOWEST bit is a method the client never offered (CLAIMTOBE is the lowest
+	// method bit of all): the client offers only FS, the server answers FS|CLAIMTOBE and is ready to
+	// play CLAIMTOBE. Nothing may run. (FS: implemented and needs no configuration on the client.)
+	for _, au := range levels {
+		for _, en := range levels {
+			cfg := clientCfg{auth: au, enc: en, integ: "OPTIONAL", methods: []string{"FS"}, ciphers: []string{"AES"}}
+			for _, reply := range []int64{4 | bitClaimToBe, 4 | bitClaimToBe | bitPassword, 4 | 256 | bitClaimToBe} {
+				sc := honestSrv(cfg)
+				sc.methods = []string{"FS", "CLAIMTOBE"}
+				sc.replies = []int64{reply, bitClaimToBe}
+				cs := runClientCase(c, cfg, sc)
+				cases = append(cases, cs)
+				c.Distinct(cs.Ops[0], true)
+				c.Count("client-dev:multi-bit-lowest-unoffered")
+				if au == "REQUIRED" && en == "OPTIONAL" {
+					c.Sample(map[string]any{"op": cs.Ops[0], "real": cs.Real[0]})
 				}
 			}
 		}
@@ -808,7 +829,7 @@ type honestObs struct {
 	st  *stream.Stream
 }
 
-func runHonestPair(cc clientCfg, sc serverCfg) (cl, sv honestObs, deniedSeen bool, msgOK string) {
+func runHonestPair(cc clientCfg, sc serverCfg, cmd int) (cl, sv honestObs, deniedSeen bool, msgOK string) {
 	ca, cb := bufpipe.Pair("10.0.0.1:1111", "10.0.0.2:9618")
 	ctx, cancel := context.WithTimeout(context.Background(), 600*time.Millisecond)
 	defer cancel()
@@ -828,6 +849,7 @@ func runHonestPair(cc clientCfg, sc serverCfg) (cl, sv honestObs, deniedSeen boo
 		}
 	}()
 	conf := cc.secConfig(security.NewSessionCache())
+	conf.Command = cmd
 	a := security.NewAuthenticator(conf, cst)
 	cl.neg, cl.err = a.ClientHandshake(ctx)
 	cl.st = cst
@@ -855,7 +877,7 @@ func runHonestPair(cc clientCfg, sc serverCfg) (cl, sv honestObs, deniedSeen boo
 }
 
 func runMatrix(c *Ctx) error {
-	c.Res.Rule = "two real cedar endpoints over an in-memory duplex pipe: the full 4^4 matrix of (client auth, server auth, client enc, server enc) levels x method-list shapes (equal, disjoint, overlapping in both orders, empty, containing the unimplemented PASSWORD, PASSWORD only) x cipher lists (common / none); after success a message is exchanged each way; outcome compared with the Lean model honestRun and with the property's decision table; exhaustive over the matrix for each shape; non-trivial = always (each cell distinct)"
+	c.Res.Rule = "two real cedar endpoints over an in-memory duplex pipe: the full 4^4 matrix of (client auth, server auth, client enc, server enc) levels x method-list shapes (equal, disjoint, overlapping in both orders, empty, containing the unimplemented PASSWORD, PASSWORD only) x cipher lists (common / none), the client's command rotating over a real command, command 0 and none (auth-only); after success a message is exchanged each way; outcome compared with the Lean model honestRun and with the property's decision table; exhaustive over the matrix for each shape; non-trivial = always (each cell distinct)"
 	var cases []Case
 	type shape struct {
 		name string
@@ -880,6 +902,7 @@ func runMatrix(c *Ctx) error {
 			shape{"order2", []string{"PASSWORD", "CLAIMTOBE"}, []string{"CLAIMTOBE", "PASSWORD"}, []string{"3DES", "AES"}, []string{"AES"}},
 		)
 	}
+	cellNo := 0
 	for _, sh := range shapes {
 		for _, ca := range levels {
 			for _, sa := range levels {
@@ -887,7 +910,11 @@ func runMatrix(c *Ctx) error {
 					for _, se := range levels {
 						cc := clientCfg{auth: ca, enc: ce, integ: "OPTIONAL", methods: sh.cm, ciphers: sh.cc}
 						sc := serverCfg{auth: sa, enc: se, integ: "OPTIONAL", methods: sh.sm, ciphers: sh.scs}
-						cl, sv, denied, msgOK := runHonestPair(cc, sc)
+						// the command dimension of the quantifier: a real command, command 0, and an
+						// auth-only handshake that carries none
+						cellNo++
+						cl, sv, denied, msgOK := runHonestPair(cc, sc, []int{60007, 0, security.NoCommand}[cellNo%3])
+						c.Count(fmt.Sprintf("command:%d", []int{60007, 0, security.NoCommand}[cellNo%3]))
 						op := fmt.Sprintf("honest cauth=%s cenc=%s cinteg=OPTIONAL cmethods=%s cciphers=%s sauth=%s senc=%s sinteg=OPTIONAL smethods=%s sciphers=%s ok=CLAIMTOBE user=%s",
 							ca, ce, joinOrDash(sh.cm), joinOrDash(sh.cc), sa, se, joinOrDash(sh.sm), joinOrDash(sh.scs), "~")
 						side := func(o honestObs) string {
